@@ -109,6 +109,9 @@ def gen_plan(seed, tier="quick"):
         # ... and that earlier run may have been killed part-way (partial output, half-written QC scratch files)
         "rerun_killed": ({"rseed": r.randrange(1 << 30)} if r.random() < 0.5 else None),
         "append": r.random() < 0.2, "ns_first": r.randrange(12000, 16000) if (reject and r.random() < 0.7) else r.randrange(1500, 9000), "nproc_first": r.choice([1, 2, 3]),
+        # history: an earlier destripe call in the same process on a recording of ANOTHER probe type (other ADC sampling
+        # delays) with the same channel count and batch size
+        "prelude": (r.choice([f for f in ("NP1", "NP21", "NP24") if f != fixture]) if r.random() < 0.2 else None),
         "p_switch": r.choice([0.0, 0.0, 0.01, 0.05, 0.2, 0.5, 1.0]),
         "victim": r.choice([None, None, 0, nproc - 1, r.randrange(nproc)]),
         "order": r.choice([None, None, "reverse", "shuffle"]),
@@ -368,7 +371,7 @@ def _run(plan, base):
     nbatches = max(0, -(-(ns - plan["nbatch"]) // stride)) + 1
     stats["config"][f"nproc={plan['nproc']}"] = 1
     stats["config"]["kfilt" if _k_filter(plan, W) else "car"] = 1
-    for key in ("append", "drop_sync", "qc_path", "rerun", "mixed_gains"):
+    for key in ("append", "drop_sync", "qc_path", "rerun", "mixed_gains", "prelude"):
         if plan.get(key):
             stats["config"][key] = 1
     stats["config"]["input_" + plan.get("form", "bin")] = 1
@@ -394,6 +397,19 @@ def _run(plan, base):
                 s2 = spikeglx.Reader(bin1)
                 bin1 = s2.compress_file(keep_original=False, chunk_duration=0.1, n_threads=1)
                 s2.close()
+        if plan.get("prelude"):
+            fxp = plan["prelude"]
+            ns_p = min(12000, 2 * plan["nbatch"] + 100) if not plan.get("nbatch_default") else 3000
+            Op = world.make_data(plan["data_seed"] ^ 0x3131, ns_p, nap, amp=(60 if fxp == "NP1" else 400),
+                                 maxint=(512 if fxp == "NP1" else 8192), smooth=True)
+            binp = world.write_recording(base / "rec_p", STEM, fxp, Op)
+            (base / "out_p").mkdir()
+            pp = dict(plan, ns=ns_p, reject=False, append=False, qc_path=False)
+            rp = _sim_run(pp, binp, base / "out_p" / "destriped.bin", min(2, plan["nproc"]), False,
+                          {"root": base, "fs": world.meta_fs(fxp), "ncv": nap, "nc": nap + 1}, None)
+            if rp["err"]:
+                raise Violation("C06.a", f"raises:{type(rp['err'][0]).__name__}:prelude", f"earlier call on a {fxp} recording raised: {rp['err'][1][-600:]}")
+            probe("earlier_call_other_probe_type_same_process")
         for tag, nproc, schedule in (("ref", 1, None),
                                      ("sim", plan["nproc"], {"seed": plan["sched_seed"], "p_switch": plan["p_switch"],
                                                              "victim": plan["victim"], "order": plan["order"], "trace": plan.get("trace"), "io_mode": plan.get("io_mode")})):
@@ -671,7 +687,7 @@ def _check_reference(plan, O, out, offset, nc_out, fs, rec, sigbase, W):
 
 
 def shrink_candidates(plan):
-    for key, val in (("append", False), ("delay", None), ("io_mode", False), ("out_dtype", "int16"), ("mixed_gains", False), ("rerun_killed", None), ("rerun", False), ("form", "bin"), ("qc_path", False), ("saturate", []), ("wrot", "none"), ("reject", False), ("ns2add", 0),
+    for key, val in (("prelude", None), ("append", False), ("delay", None), ("io_mode", False), ("out_dtype", "int16"), ("mixed_gains", False), ("rerun_killed", None), ("rerun", False), ("form", "bin"), ("qc_path", False), ("saturate", []), ("wrot", "none"), ("reject", False), ("ns2add", 0),
                      ("drop_sync", False), ("default_k", False), ("order", None), ("victim", None), ("p_switch", 0.0),
                      ("k_filter", False)):
         if plan.get(key) != val:
